@@ -15,7 +15,7 @@ def nontrivial(case, info, qk, row):
 def run(ctx):
     count = 150 if ctx.tier == "quick" else 3000
     cases = answers.load_corpus("C07")
-    cases += answers.gen_cases(ctx, count, (1, 5), (1, 6), [True], consts=0.12, ties=0.3)
+    cases += answers.gen_cases(ctx, count, (1, 6), (1, 6), [True], consts=0.12, ties=0.3, rekey=0.3)
     if ctx.tier == "thorough":
         ex = answers.exhaustive_cases(ctx, [True])
         ctx.notes.append(f"exhaustive small scope: all one-conditional bases over the 16 truth tables on 2 atoms and all two-conditional bases "
